@@ -22,7 +22,7 @@ def main():
             "evidence_file": f"evidence/{pid}.json",
             "replay_cmd_template": f"./check {pid} --replay {{path}}",
             "engine": "coq-proof+correspondence",
-            "level_claimed": {"category": mod.LEVEL, "text": mod.LEVEL_TEXT, "design_ref": f"DESIGN.md section 7, {pid}"},
+            "level_claimed": {"category": mod.LEVEL, "text": mod.LEVEL_TEXT, "design_ref": f"DESIGN.md section 0 (status table, row {pid}: what was built) and section 7, {pid} (the original plan)"},
             "level_note": mod.LEVEL_NOTE,
             "technique": mod.TECHNIQUE,
         })
